@@ -33,6 +33,8 @@ ASSUMPTIONS = ['pure functions called directly; zkutils over the in-memory ZooKe
 BUDGET = {'quick': (2400, 30.0), 'thorough': (60000, 240.0)}
 REQUIRED_REACH = {'*': ['rule_roundtrips', 'name_roundtrips', 'event_roundtrips', 'event_pipeline', 'zk_roundtrips',
                         'zk_rewrites_check_content', 'zk_rewrites_over_equal_valued_other_type', 'zk_rewrites_over_one_leaf_changed',
+                        'zk_ensure_exists_over_another_object', 'zk_empty_collection_written_over_another_object',
+                        'ldap_keyed_list_with_two_elements_of_one_key:app', 'ldap_keyed_list_with_two_elements_of_one_key:cell_alloc',
                         'ldap_roundtrips', 'ldap_update_checks', 'ldap_diff_checks', 'mutation_pairs', 'uniqueid_stat']}
 
 ALNUM = string.ascii_letters + string.digits
@@ -461,7 +463,7 @@ def check_zk(ctx, rng, reg, zk_state):
         obj = rng.choice([{'v': obj}, [obj]])
     case = dict(codec='zk-payload', value=obj)
     path = '/vf/obj'
-    how = rng.choice(['put', 'put-existing', 'create', 'update', 'rewrite', 'rewrite'])
+    how = rng.choice(['put', 'put-existing', 'create', 'update', 'rewrite', 'rewrite', 'ensure', 'ensure-existing', 'ensure-existing'])
     if zk.exists(path):
         zk.delete(path)
     if how == 'rewrite':
@@ -503,6 +505,23 @@ def check_zk(ctx, rng, reg, zk_state):
         zkutils.put(zk, path, obj, check_content=rng.random() < 0.5)
     elif how == 'create':
         zkutils.create(zk, path, obj)
+    elif how == 'ensure':
+        # ensure_exists(data=...) is the writer of the cell-wide lists (cellsync: /globals/servers, /traits)
+        zkutils.ensure_exists(zk, path, data=copy.deepcopy(obj))
+        ctx.count('zk_ensure_exists_fresh_node')
+    elif how == 'ensure-existing':
+        # ... over a node that holds another object (the list as it was at the previous synchronisation)
+        prev = gen_json(rng, 1)
+        if not isinstance(prev, (dict, list)):
+            prev = rng.choice([{'v': prev}, [prev]])
+        if exact(prev) == exact(obj):
+            prev = {'old': 1}
+        rng.choice([zkutils.put, zkutils.ensure_exists])(zk, path, data=prev)
+        case = dict(case, stored_before=prev)
+        zkutils.ensure_exists(zk, path, data=copy.deepcopy(obj))
+        ctx.count('zk_ensure_exists_over_another_object')
+        if obj in ({}, []):
+            ctx.count('zk_empty_collection_written_over_another_object')
     else:
         zkutils.put(zk, path, {'old': 1})
         zkutils.update(zk, path, obj, check_content=rng.random() < 0.5)
@@ -572,6 +591,14 @@ def gen_app(rng):
             if opt(0.3):
                 e['type'] = 'infra'
             o['endpoints'].append(e)
+        if 0 < n < 20 and opt(0.3):
+            # one service name on two protocols (dns on tcp and udp): the schema does not ask for distinct names
+            e = rng.choice(o['endpoints'])
+            e['proto'] = rng.choice(['tcp', 'udp'])
+            twin = dict(e, proto='udp' if e['proto'] == 'tcp' else 'tcp')
+            if opt(0.3):
+                twin['port'] = rng.choice([p_ for p_ in (0, 1, 80, 65535) if p_ != e['port']])
+            o['endpoints'].insert(rng.randint(0, len(o['endpoints'])), twin)
     if opt(0.5):
         o['environ'] = [{'name': 'V%d' % i, 'value': word(rng, ALNUM + ' =:/', 1, 8)} for i in rng.sample(range(30), rng.choice([0, 1, 3, 18]))]
     if opt(0.4):
@@ -583,6 +610,15 @@ def gen_app(rng):
     return o
 
 
+def _by_name(s):
+    # (elements of one name - an endpoint on two protocols - in a fixed order)
+    return (s['name'], s.get('proto') or '', s.get('port') or 0)
+
+
+def _by_pattern(a):
+    return (a['pattern'], a.get('priority') or 0)
+
+
 def norm_app(o):
     """What decoding must give back for what was put in (documented defaults)."""
     exp = {}
@@ -591,7 +627,7 @@ def norm_app(o):
             exp[k] = sorted(({**s, 'restart': {**{'limit': 5, 'interval': 60}, **s.get('restart', {})}} for s in v),
                             key=lambda s: s['name'])
         elif k in ('endpoints', 'environ'):
-            exp[k] = sorted(v, key=lambda s: s['name'])
+            exp[k] = sorted(v, key=_by_name)
         elif k == 'ephemeral_ports':
             exp[k] = {'tcp': v.get('tcp', 0), 'udp': v.get('udp', 0)}
         elif k == 'vring':
@@ -611,7 +647,7 @@ def view_app(d):
         out['ephemeral_ports'] = {'tcp': out['ephemeral_ports'].get('tcp', 0), 'udp': out['ephemeral_ports'].get('udp', 0)}
     for k in ('services', 'endpoints', 'environ'):
         if k in out:
-            out[k] = sorted(out[k], key=lambda s: s['name'])
+            out[k] = sorted(out[k], key=_by_name)
     if 'vring' in out:
         out['vring'] = {'cells': list(out['vring'].get('cells', [])),
                         'rules': sorted(out['vring'].get('rules', []), key=lambda r: r['pattern'])}
@@ -656,6 +692,11 @@ def gen_cell_alloc(rng):
     if rng.random() < 0.6:
         o['assignments'] = [{'pattern': 'proid.app%d*' % i, 'priority': rng.choice([0, 1, 50, 100])}
                             for i in rng.sample(range(40), rng.choice([0, 1, 3, 18]))]
+        if o['assignments'] and rng.random() < 0.3:
+            # one pattern assigned twice with two priorities (nothing in the schema or in the encoding forbids it)
+            a = rng.choice(o['assignments'])
+            o['assignments'].insert(rng.randint(0, len(o['assignments'])),
+                                    dict(a, priority=rng.choice([p_ for p_ in (0, 1, 50, 100) if p_ != a['priority']])))
     return o
 
 
@@ -687,8 +728,8 @@ def check_ldap(ctx, rng, reg, be):
         admin, obj, ident = be.cell_allocation(), gen_cell_alloc(rng), [rng.choice(['c1', 'Cell-2']), '%s/alloc%d' % (tenants, rng.randint(0, 5))]
         exp = dict(obj)
         if 'assignments' in exp:
-            exp['assignments'] = sorted(exp['assignments'], key=lambda a: a['pattern'])
-        view = lambda d: {**d, 'assignments': sorted(d.get('assignments', []), key=lambda a: a['pattern'])}   # noqa
+            exp['assignments'] = sorted(exp['assignments'], key=_by_pattern)
+        view = lambda d: {**d, 'assignments': sorted(d.get('assignments', []), key=_by_pattern)}   # noqa
     else:
         admin, obj, ident = be.partition(), gen_partition(rng), ['p%d' % rng.randint(0, 3), 'c1']
         exp = dict(obj)
@@ -696,6 +737,10 @@ def check_ldap(ctx, rng, reg, be):
             exp['limits'] = sorted(exp['limits'], key=lambda a: a['trait'])
         view = lambda d: {**d, 'limits': sorted(d.get('limits', []), key=lambda a: a['trait'])}   # noqa
     case = dict(codec='ldap:' + which, value=obj)
+    for key_, attr_ in (('endpoints', 'name'), ('assignments', 'pattern')):
+        names_ = [x[attr_] for x in obj.get(key_, [])]
+        if len(names_) != len(set(names_)):
+            ctx.count('ldap_keyed_list_with_two_elements_of_one_key:' + which)
     o_in = copy.deepcopy(obj)
     entry = admin.to_entry(copy.deepcopy(obj))
     back = admin.from_entry(entry)
@@ -778,7 +823,7 @@ def check_ldap(ctx, rng, reg, be):
     got2 = {k: (sorted(v) if k in SETLIKE and isinstance(v, list) else v) for k, v in got2.items()}
     exp2 = {k: (sorted(v) if k in SETLIKE and isinstance(v, list) else v) for k, v in exp2.items()}
     if which == 'cell_alloc' and 'assignments' in exp2:
-        exp2['assignments'] = sorted(exp2['assignments'], key=lambda a: a['pattern'])
+        exp2['assignments'] = sorted(exp2['assignments'], key=_by_pattern)
     if which == 'partition' and 'limits' in exp2:
         exp2['limits'] = sorted(exp2['limits'], key=lambda a: a['trait'])
     for key in ('assignments', 'limits'):
